@@ -103,6 +103,29 @@ func init() {
 				}
 			}
 		}
+		if isConst && format == "0000%02d%02d%02d%02d000R" {
+			if va, ok := args[1].(*SliceVal); ok && va.Len.Op == "int" && va.Len.Num.Int64() == 4 {
+				parts := []*Term{x.strLit(st, "0000")}
+				good := true
+				for i := int64(0); i < 4; i++ {
+					v, ok := x.unbox(st, va, i)
+					iv, ok2 := v.(*IfaceVal)
+					if !ok || !ok2 || iv.Dyn == nil {
+						good = false
+						break
+					}
+					n := x.toInt(iv.V.(*Term))
+					d2 := App("dec2", SBytes, n)
+					st.Assume(Implies(And(Le(IntLit(0), n), Le(n, IntLit(99))), Eq(App("len", SInt, d2), IntLit(2))))
+					parts = append(parts, d2)
+				}
+				if good {
+					x.assume("A-FMT2")
+					parts = append(parts, x.strLit(st, "000R"))
+					return one(CatN(parts...))
+				}
+			}
+		}
 		// any other format: some string (its content is not modelled)
 		r := Fresh("sprintf", SBytes)
 		x.countAllocN(st, Len(r))
